@@ -261,4 +261,23 @@ PROPS = {
         "tags": {1: "rows read from the cache after the step vs the model", 9: "the model cannot perform the step (write through a nil reference)"},
         "assumptions": [],
     },
+    "C17": {
+        "level_text": ("Theorems (Props/C17.v, axiom-free): each transact request is a thread performing the critical actions of OvsdbServer.Transact - take the transaction lock, "
+                       "execute against the committed database, notify the monitors, commit, release - in the order read off server/server.go by a go/ast extractor on every run "
+                       "(generated fact body_serial extracted_body = true, checked by coqc). For every schedule (any sequence of thread ids; taking the lock blocks while it is "
+                       "held), whenever no request is inside Transact, the database, the outcome every finished request received and the order in which monitors were notified "
+                       "are those of executing the requests one after another in lock order; at most one request is inside the critical section; without the lock two "
+                       "increments lose one (refuted by a witness). Tied to the code by 2..5 concurrent client connections against a real server with 1..2 monitors. "
+                       "Partial: rpc2's goroutines, the Go mutex and the per-monitor notification call are not modelled; the engine is C03's model."),
+        "level_note": ("Trusted: Coq kernel + vm_compute, std++; the extractor (it recognises o.txnMutex.Lock/Unlock, o.transact, o.processMonitors, o.db.Commit, go and defer); "
+                       "Go harness. Each transaction inserts a marker row, so a monitor's notification sequence names the commit order. Failed transactions have no place in "
+                       "that order: the check asks that their results occur at some point of the serial execution."),
+        "rule": ("per case: sequential set-up, then 2..5 clients each submitting 3..6 transactions concurrently: counter increment (mutate +=), read-modify-write (select, then "
+                 "wait n == read value + update, failing when overtaken), insert competing for one of 3 unique names, moving a strongly referenced child between two parents; "
+                 "direct oracles: counter = number of committed increments, one row per unique name, every monitor saw the same order, no monitor notified of a failed one. "
+                 "Non-trivial: >= 6 committed and >= 1 failed transaction."),
+        "tags": {1: "results of a committed transaction vs serial execution in notification order", 2: "final database", 4: "a failed transaction's results occur nowhere in the serial execution",
+                 5: "monitors disagree on the order"},
+        "assumptions": ["a client has one transaction in flight at a time"],
+    },
 }
